@@ -125,7 +125,7 @@ class Recorder(object):
     ev["delta"] = self.delta(new_state)
     self.state = new_state
     new_schema = self.project_schema()
-    if new_schema != self.schema or ev["k"] == "F":
+    if new_schema != self.schema or ev["k"] in ("F", "Q"):
       ev["schema"] = new_schema
       self.schema = new_schema
     # facts for the evidence counters (never used as a verdict)
@@ -159,11 +159,50 @@ class Recorder(object):
       self.raw.append({"exc": e})
       return ev, None, e
     ev["stored"] = [encode_action(a, self.tt) for a in reply["stored"]]
+    ev["ret"] = self.tt.tok(reply["retValues"])
     ev["direct"] = [bool(d) for d in reply["direct"]]
     ev["undo"] = [encode_action(a, self.tt) for a in reply["undo"]]
     self._finish(ev)
     self.raw.append(reply)
     return ev, reply, None
+
+  def readonly_event(self, call, args):
+    """
+    C29: a read-only public call.  The event records only what the call did to the document (which
+    must be nothing); the reply itself is not part of the property.
+    """
+    import formula_prompt    # pylint: disable=import-outside-toplevel
+    ev = {"k": "Q", "tag": "readonly", "of": 0, "clause": "C29.unchanged", "stored": [], "direct": [],
+          "undo": [], "ret": "", "uas": ["%s %s" % (call, " ".join(str(a) for a in args))], "onlyrm": False,
+          "exc": ""}
+    eng = self.eng
+    try:
+      if call == "fetch_table":
+        eng.fetch_table(*args)
+      elif call == "fetch_table_query":
+        eng.fetch_table(args[0], query=args[1])
+      elif call == "fetch_meta_tables":
+        eng.fetch_meta_tables()
+      elif call == "get_formula_error":
+        eng.get_formula_error(*args)
+      elif call == "evaluate_formula":
+        formula_prompt.evaluate_formula(eng, *args)
+      elif call == "get_formula_prompt":
+        formula_prompt.get_formula_prompt(eng, *args)
+      elif call == "autocomplete":
+        eng.autocomplete(*args)
+      elif call == "find_col_from_values":
+        eng.find_col_from_values(*args)
+      else:
+        raise adapter.MachineryError("unknown read-only call " + call)
+    except adapter.MachineryError:
+      raise
+    except Exception as e:    # pylint: disable=broad-except
+      ev["exc"] = type(e).__name__      # a read-only call may fail; it still may not change anything
+    self.full.append([call] + list(args))
+    self._finish(ev)
+    self.raw.append({"readonly": call})
+    return ev
 
   def peer_event(self, tag, clause, qclause="", peer_state=None, stored=(), only_formula=False,
                  note=None):
